@@ -310,6 +310,49 @@ fn check_file(items: &[Item], rng: &mut Rng, rep: &mut Reporter, case_idx: u64) 
     rep.count("evaluations", 1);
     rep.count("files_checked", 1);
     let got_norm: Vec<NItem<'_>> = got.iter().map(|g| g.clone().map_err(strip_terms)).collect();
+    // the same stream through the other Iterator entry points
+    {
+        let norm = |v: Vec<NItem<'_>>| -> Vec<String> { v.into_iter().map(|g| format!("{:?}", g.map_err(strip_terms))).collect() };
+        let base: Vec<String> = got_norm.iter().map(|g| format!("{g:?}")).collect();
+        let lim = base.len() + 4;
+        let mut bad: Option<String> = None;
+        for k in 0..base.len() + 1 {
+            let n = cur::records_nth(text.as_bytes(), k).map(|g| format!("{:?}", g.map_err(strip_terms)));
+            if n.as_ref() != base.get(k) {
+                bad = Some(format!("nth({k}) = {n:?}, next() sequence has {:?}", base.get(k)));
+                break;
+            }
+        }
+        if bad.is_none() {
+            for k in [1usize, 2, 3] {
+                let sk = norm(cur::records_skip(text.as_bytes(), k, lim));
+                if sk[..] != base[k.min(base.len())..] {
+                    bad = Some(format!("skip({k}) differs from the tail of the next() sequence"));
+                }
+                let st = norm(cur::records_step_by(text.as_bytes(), k + 1, lim));
+                let exp: Vec<String> = base.iter().step_by(k + 1).cloned().collect();
+                if st != exp {
+                    bad = Some(format!("step_by({}) differs from every {}th item of the next() sequence", k + 1, k + 1));
+                }
+            }
+            let (cnt, last) = cur::records_count_last(text.as_bytes());
+            if cnt != base.len() || last.map(|g| format!("{:?}", g.map_err(strip_terms))) != base.last().cloned() {
+                bad = Some("count()/last() differ from the next() sequence".to_string());
+            }
+            let (a, b) = cur::records_clone_midway(text.as_bytes(), base.len() / 2, lim);
+            if norm(a) != norm(b) {
+                bad = Some("a clone of a partially consumed iterator continues differently".to_string());
+            }
+        }
+        rep.count("evaluations", 1);
+        rep.count("iterator_adaptor_checks", 1);
+        if let Some(b) = bad {
+            let mut d = Json::obj();
+            d.set("file", Json::s(text.clone()));
+            d.set("what", Json::s(b));
+            rep.violation(case_idx, "file-embedding", "records obtained through nth/skip/step_by/count/last/clone differ from the next() sequence", d);
+        }
+    }
     if got_norm != exp {
         let mut d = Json::obj();
         d.set("file", Json::s(text.clone()));
